@@ -406,6 +406,30 @@ def c11_text(t, dump, tier):
                     res.append(BFinding('C11', 'gen:' + g, t.tag, panic_sym(gp), '%s' % gp, {'text': text}))
     except Unsupported as u:
         stats['inconclusive'].append('generate: %s' % str(u)[:150])
+    # (c2) the `compile` command itself (cmd.Compile with the file present in the model file system): diagnostics are printed,
+    # files are written - nothing of it may crash, for texts with and without diagnostics
+    try:
+        def cmdrun(c):
+            M = make_machine(c)
+            snap = Snapshot(prog, dump).load()
+            m = M.call(PARSER + '.VerifVisit', [snap.tree])
+            M.env['parse_result'] = m
+            M.env['fs']['in.dsl'] = text.encode()
+            M.env['fs_readable'] = True
+            M.effects = []
+            M.stdout = []
+            outs = GoMap()
+            for g in GENS:
+                outs.set(go_str(g), go_str('/out/' + g))
+            M.call(MOD + '/cmd.Compile', [go_str('in.dsl'), outs])
+            return 'done'
+        _, pcs = explore([], cmdrun, 8)
+        for (kind, val), pc in pcs:
+            stats['paths'] += 1
+            if kind == 'panic' and 'VerifVisit' not in str(val) and not any(f.locus.startswith(('visit', 'gen:')) for f in res):
+                res.append(BFinding('C11', 'cmd:compile', t.tag, panic_sym(val), '%s' % val, {'text': text}))
+    except Unsupported as u:
+        stats['inconclusive'].append('cmd.Compile: %s' % str(u)[:150])
     # (d) the size N of each `char[N]` / `zchar[N]` is a 64-bit solver variable: visitor and the six generators run with every
     # comparison / allocation on N decided by z3 over 0 <= N < 10^18; where the code prints N into text the path is pinned to a
     # witness value (counted: those paths cover one value of N each)
@@ -459,6 +483,27 @@ def c11_text(t, dump, tier):
     return res, stats
 
 
+def native_compile_crashes(text):
+    import tempfile, shutil, subprocess
+    binary = build.build_binary()
+    d = tempfile.mkdtemp(prefix='zzc11_', dir=build.cache_dir())
+    try:
+        with open(os.path.join(d, 'a.dsl'), 'w', newline='') as fh:
+            fh.write(text)
+        args = [binary, 'compile', '-f', os.path.join(d, 'a.dsl')]
+        for lang, flag in build.LANG_FLAGS:
+            args += [flag, os.path.join(d, 'out_' + lang)]
+        r = subprocess.run(args, capture_output=True, text=True, timeout=120, errors='replace')
+        crashed = r.returncode not in (0, 1) or 'panic:' in r.stderr or 'fatal error' in r.stderr
+        return crashed, 'the real binary exits %d%s' % (r.returncode, ' with a Go panic' if 'panic:' in r.stderr else '')
+    except subprocess.TimeoutExpired:
+        return True, 'the real binary does not finish within 120 s'
+    except Exception as e:
+        return False, 'native run failed: %s' % str(e)[:80]
+    finally:
+        shutil.rmtree(d, ignore_errors=True)
+
+
 def c11_confirm(findings, tier):
     """replay every witness natively: the real parser/visitor/generators/formatter must panic too"""
     texts = [f['cex']['text'] for f in findings]
@@ -474,6 +519,8 @@ def c11_confirm(findings, tier):
         elif loc == 'visit':
             ok = bool(n.get('panic'))
             what = n.get('panic')
+        elif loc == 'cmd:compile':
+            ok, what = native_compile_crashes(f['cex']['text'])
         elif loc == 'size':
             ok = bool(n.get('panic')) or any(g.get('panic') for g in n.get('gens') or [])
             what = n.get('panic') or [g.get('panic') for g in n.get('gens') or []]
@@ -885,7 +932,84 @@ def c14_text(t, dump, tier):
             # (a change confined to package-level state that no other generator's output depends on for this text is not a violation)
             res.append(BFinding('C14', g1, t.tag, 'frame:' + ';'.join(tags)[:100],
                                 'generator %s modifies the parsed model (%s); no other generator\'s output changes for this text' % (g1, tags), {'text': t.text, 'first': g1}))
+    if t.tag.startswith(INVOKE_TAGS) or tier == 'thorough':
+        c14_invocation(t, dump, tier, res, stats)
     return res, stats
+
+
+INVOKE_TAGS = ('g:', 'a:combined0', 'a:match_two', 'a:objs_None_None', 'a:fixed_attr0', 'a:idents', 'p:many', 'p:oneline', 'f:match_list', 'f:inline_rep', 'f:meta_u8')
+# CLI order of the targets inside cmd.Compile (the engine's GENS names)
+LAYOUTS = {
+    'own': lambda g: '/out/' + g,
+    # every target's directory lies inside the directory of the target that runs after it (and the last one holds them all)
+    'nested': lambda g: '/o' + ''.join('/' + x for x in reversed(GENS[GENS.index(g):])),
+    'same': lambda g: '/out/all',
+}
+
+
+def c14_invocation(t, dump, tier, res, stats):
+    """the property at the level of one invocation: cmd.Compile (the real wrapper and WriteCodeToFile, file system behind the
+    engine's model) with ONE target requested vs ALL SIX requested - every file the single-target run leaves must be there,
+    byte for byte, after the six-target run; for three layouts of the output directories (separate, nested, one shared).
+    A target that refuses the program (no root packet) must not take the files of the accepting targets away."""
+    prog = symgo.repo_prog()
+
+    def compile_run(sub, dirof):
+        def run(c):
+            M = make_machine(c)
+            snap = Snapshot(prog, dump).load()
+            m = M.call(PARSER + '.VerifVisit', [snap.tree])
+            M.env['parse_result'] = m
+            M.env['fs_readable'] = True
+            M.effects = []
+            M.stdout = []
+            outs = GoMap()
+            for g in GENS:
+                outs.set(go_str(g), go_str(dirof(g)) if g in sub else '')
+            err = M.call(MOD + '/cmd.Compile', [go_str('in.dsl'), outs])
+            return (err is None), dict(M.env['fs'])
+        ctl, paths = explore([], run, 8)
+        vals = [v for (k, v), pc in paths if k == 'ok']
+        stats['paths'] += len(paths)
+        return vals[0] if len(vals) == 1 else None
+    for lay, dirof in LAYOUTS.items():
+        try:
+            alone = {}
+            for g in GENS:
+                alone[g] = compile_run((g,), dirof)
+            accept = [g for g in GENS if alone[g] is not None and alone[g][0]]
+            refuse = [g for g in GENS if alone[g] is not None and not alone[g][0]]
+            if not accept:
+                continue
+            if lay == 'same':
+                # two targets writing a file of the same name into one directory: no claim
+                names = collections.Counter(p for g in accept for p in alone[g][1])
+                if any(n > 1 for n in names.values()):
+                    continue
+            combos = [tuple(accept)] if len(accept) > 1 else []
+            # an accepting target together with one refusing target that runs BEFORE it / AFTER it
+            for g in accept[:2]:
+                for r_ in refuse[:2]:
+                    combos.append(tuple(sorted((g, r_), key=GENS.index)))
+            for sub in combos:
+                both = compile_run(sub, dirof)
+                if both is None:
+                    continue
+                for g in sub:
+                    if g not in accept:
+                        continue
+                    bad = [p for p, data in sorted(alone[g][1].items()) if both[1].get(p) != data]
+                    if bad:
+                        refusers = [x for x in sub if x in refuse]
+                        kind = 'refuser-%s' % ('before' if GENS.index(refusers[0]) < GENS.index(g) else 'after') if refusers else 'files'
+                        res.append(BFinding('C14', 'invoke:' + g, t.tag, 'invocation:%s:%s' % (lay, kind),
+                                            'compile with targets %s (directories: %s): %s of the %d files that target %s writes when requested alone are %s' % (
+                                                '+'.join(sub), lay, len(bad), len(alone[g][1]), g, 'missing' if both[1].get(bad[0]) is None else 'different'),
+                                            {'text': t.text, 'targets': list(sub), 'alone': g, 'layout': lay, 'dirs': {x: dirof(x) for x in sub}, 'file': bad[0]}))
+        except Unsupported as u:
+            stats['inconclusive'].append('invocation[%s]: %s' % (lay, str(u)[:150]))
+        except (GoPanic, GoExit):
+            pass
 
 
 def describe_cell(M, cell, before, after):
@@ -1070,6 +1194,9 @@ def install_cmd_stubs(M):
 
     def remove(M_, a):
         name = to_pystr(a[0])
+        if name not in fs:
+            n_ = re.sub(r'/+', '/', name)
+            name = next((p_ for p_ in fs if re.sub(r'/+', '/', p_) == n_), name)
         M_.effects.append(('Remove', name))
         if name not in fs:
             return notexist(name)
@@ -1077,6 +1204,110 @@ def install_cmd_stubs(M):
         mt.pop(name, None)
         return None
     M.intr['os.Remove'] = remove
+    # ---- reading and walking the (model) file system
+    DE_T = -6
+    for gname, msg in (('io.EOF', 'EOF'), ('io.ErrUnexpectedEOF', 'unexpected EOF'), ('io/fs.SkipDir', 'skip this directory'), ('path/filepath.SkipDir', 'skip this directory'),
+                       ('io/fs.SkipAll', 'skip everything and stop the walk'), ('path/filepath.SkipAll', 'skip everything and stop the walk')):
+        if gname not in M.globals:
+            base = M.globals.get('io/fs.' + gname.split('.')[-1]) if gname.startswith('path/filepath.') else None
+            M.globals[gname] = base or Ptr(Cell(symgo.mkerr(msg), tag='global:' + gname))
+    rpos = {}
+
+    def fopen(M_, a):
+        name = key_of(to_pystr(a[0]))
+        M_.effects.append(('Open', name))
+        if name not in fs:
+            return (None, notexist(name))
+        f = Ptr(Cell([name], tag='os.File'))
+        rpos[id(f.cell)] = 0
+        return (f, None)
+    M.intr['os.Open'] = fopen
+
+    def fread(M_, fptr, buf, full):
+        name = M_.load(fptr)[0]
+        data = fs.get(name, b'')
+        k = rpos.get(id(fptr.cell), 0)
+        want = buf.len if buf is not None else 0
+        chunk = data[k:k + want]
+        for i, b in enumerate(chunk):
+            buf.cell.v[buf.off + i] = b
+        rpos[id(fptr.cell)] = k + len(chunk)
+        if len(chunk) == want and want > 0 or (want == 0):
+            return (len(chunk), None)
+        if len(chunk) == 0:
+            return (0, M_.load(M_.globals['io.EOF']))
+        return (len(chunk), M_.load(M_.globals['io.ErrUnexpectedEOF']) if full else None)
+    M.intr['(*os.File).Read'] = lambda M_, a: fread(M_, a[0], a[1], False)
+    M.intr['io.ReadFull'] = lambda M_, a: fread(M_, a[0].v if isinstance(a[0], Iface) else a[0], a[1], True)
+    M.intr['io.ReadAll'] = lambda M_, a: (M_.mkslice(list(fs.get(M_.load(a[0].v if isinstance(a[0], Iface) else a[0])[0], b''))), None)
+
+    def npath(p_):
+        return re.sub(r'/+', '/', p_)
+
+    def key_of(path):
+        if path in fs:
+            return path
+        n = npath(path)
+        for p_ in fs:
+            if npath(p_) == n:
+                return p_
+        return path
+
+    def children(d):
+        d = npath(d).rstrip('/')
+        names = {}
+        for p_ in map(npath, fs):
+            if p_.startswith(d + '/'):
+                rest = p_[len(d) + 1:]
+                first = rest.split('/')[0]
+                names[first] = names.get(first, False) or ('/' in rest)
+        return sorted(names.items())            # [(name, is_dir)] in lexical order, as filepath.Walk visits them
+
+    def is_dir(path):
+        return any(npath(p_).startswith(npath(path).rstrip('/') + '/') for p_ in fs)
+
+    def walk(M_, root, fn, entry):
+        skipdir = M_.load(M_.globals['io/fs.SkipDir'])
+        skipall = M_.load(M_.globals['io/fs.SkipAll'])
+
+        def visit(path, isd):
+            r = M_.call_value(fn, [go_str(path), entry(path, isd), None])
+            if r is not None:
+                if r is skipdir or (getattr(r, 'v', None) is getattr(skipdir, 'v', 0)):
+                    return 'skipdir' if isd else 'skiprest'
+                return r
+            if isd:
+                for name, sub in children(path):
+                    q = visit(path.rstrip('/') + '/' + name, sub)
+                    if q == 'skiprest':
+                        break
+                    if q not in (None, 'skipdir'):
+                        return q
+            return None
+        root_s = to_pystr(root)
+        if key_of(root_s) not in fs and not is_dir(root_s):
+            r = M_.call_value(fn, [root, None, notexist(root_s)])
+            return None if (r is skipdir or r is skipall) else r
+        q = visit(root_s, is_dir(root_s))
+        if q in ('skipdir', 'skiprest') or q is skipall or (getattr(q, 'v', None) is not None and getattr(q, 'v', None) is getattr(skipall, 'v', 0)):
+            return None
+        return q
+    M.intr['path/filepath.WalkDir'] = lambda M_, a: walk(M_, a[0], a[1], lambda path, isd: Iface(DE_T, {'name': path, 'dir': isd, 'size': len(fs.get(key_of(path), b'')), 'mtime': mt.get(key_of(path), 100)}))
+    M.intr['path/filepath.Walk'] = lambda M_, a: walk(M_, a[0], a[1], lambda path, isd: Iface(FI_T, {'name': path, 'dir': isd, 'size': len(fs.get(key_of(path), b'')), 'mtime': mt.get(key_of(path), 100)}))
+    M.intr['invoke:%d.Name' % DE_T] = lambda M_, a: go_str(a[0]['name'].split('/')[-1])
+    M.intr['invoke:%d.IsDir' % DE_T] = lambda M_, a: bool(a[0].get('dir'))
+    M.intr['invoke:%d.Type' % DE_T] = lambda M_, a: (1 << 31) if a[0].get('dir') else 0
+    M.intr['invoke:%d.Info' % DE_T] = lambda M_, a: (Iface(FI_T, a[0]), None)
+    M.intr['invoke:%d.IsDir' % FI_T] = lambda M_, a: bool(a[0].get('dir'))
+    M.intr['(io/fs.FileMode).IsRegular'] = lambda M_, a: (a[0] & 0x8F280000) == 0
+    M.intr['(io/fs.FileMode).IsDir'] = lambda M_, a: bool(a[0] & (1 << 31))
+
+    def readdir(M_, a):
+        d = to_pystr(a[0])
+        if not is_dir(d):
+            return (None, notexist(d))
+        return (M_.mkslice([Iface(DE_T, {'name': d.rstrip('/') + '/' + n, 'dir': sub, 'size': len(fs.get(d.rstrip('/') + '/' + n, b'')), 'mtime': 100}) for n, sub in children(d)]), None)
+    M.intr['os.ReadDir'] = readdir
     _w0 = M.fs_write
 
     def fs_write2(name, data):
@@ -1100,8 +1331,46 @@ def _file_lines(files):
     return {k: _norm_lines(v) for k, v in (files or {}).items()}
 
 
+def c14_confirm_invocation(f):
+    """the real binary, in a scratch directory with the same layout of output directories: target g alone vs the reported set"""
+    import tempfile, shutil, subprocess
+    cex = f.get('cex') or {}
+    binary = build.build_binary()
+    d = tempfile.mkdtemp(prefix='zzc14_', dir=build.cache_dir())
+    flag = {'lua': '-l', 'rust': '-r', 'go': '-g', 'java': '-j', 'python': '-p', 'cpp': '-c'}
+    try:
+        open(os.path.join(d, 'a.dsl'), 'w').write(cex['text'])
+
+        def run(sub, tag):
+            root = os.path.join(d, tag)
+            args = [binary, 'compile', '-f', os.path.join(d, 'a.dsl')]
+            for g in sub:
+                args += [flag[g], root + cex['dirs'][g]]
+            subprocess.run(args, capture_output=True, text=True, timeout=60, errors='replace')
+            out = {}
+            for r_, _, names in os.walk(root):
+                for n in names:
+                    q = os.path.join(r_, n)
+                    out[os.path.relpath(q, root)] = _norm_lines(open(q, 'rb').read())
+            return out
+        g = cex['alone']
+        dirs = dict(cex['dirs'])
+        if g not in dirs:
+            return None, 'witness lacks the directory of %s' % g
+        a = run([g], 'alone')
+        b = run(cex['targets'], 'both')
+        bad = [k for k in a if b.get(k) != a[k]]
+        return bool(bad), 'real binary: %d of the %d files %s writes alone are missing or different when %s are requested' % (len(bad), len(a), g, '+'.join(cex['targets']))
+    except Exception as e:
+        return None, 'native run failed: %s' % str(e)[:80]
+    finally:
+        shutil.rmtree(d, ignore_errors=True)
+
+
 def c14_confirm(f, tier):
     locus = f.get('locus', '')
+    if locus.startswith('invoke:'):
+        return c14_confirm_invocation(f)
     if '>' not in locus:
         return None, 'a change of the model without a changed output has no native observable'
     g1, g2 = locus.split('>')
@@ -1345,7 +1614,7 @@ def family_for(prop, tier):
         fam = fam + bfamily3.layout_family(tier)
     if prop == 'C16':
         from . import bfamily3
-        keep = [t for i, t in enumerate(fam) if (tier == 'thorough' or i % 5 == 0 or t.tag.startswith(('c:', 'p:', 'o:ok_Little')))]
+        keep = [t for i, t in enumerate(fam) if (tier == 'thorough' or i % 5 == 0 or t.tag.startswith(('c:', 'p:', 'l:', 'o:ok_Little')))]
         fam = keep + bfamily3.layout_family(tier)
     if prop in ('C13', 'C14'):
         from . import bfamily2
